@@ -30,7 +30,7 @@ def hex_indices(locator, c, Pa):
     basis = np.array([a1, a2, a3 if a3 is not None else w]).T
     coef = np.linalg.solve(basis, (Pa - centre).T).T
     base = np.rint(coef[:, :ndim]).astype(np.int64)
-    leaves = locator._leaves(c['expr'])
+    leaves = locator._leaves(c['expr'], with_facets=True)
     n = len(Pa)
     ind = np.full((n, ndim), NO_ELEMENT, dtype=np.int64)
     found = np.zeros(n, dtype=bool)
@@ -42,8 +42,8 @@ def hex_indices(locator, c, Pa):
         shifted = Pa - cand.astype(float) @ A
         ins = np.ones(n, dtype=bool)
         dec = np.ones(n, dtype=bool)
-        for leaf in leaves:
-            neg, d = locator.surf_neg(abs(leaf), shifted)
+        for leaf, facet in leaves:
+            neg, d = locator.surf_neg(abs(leaf), shifted, facet)
             ins &= (neg if leaf < 0 else ~neg)
             dec &= d
         undec |= ~dec
